@@ -120,9 +120,9 @@ func Markers(env map[string]string, quick bool) []string {
 		out = append(out, val+"0", strings.ToUpper(val), "")
 		switch v {
 		case "python_version":
-			out = append(out, "3", "3.10", "2.7", "3.9", "3.8", "3.9.0", "4", "3.*", "3.9.*", "3.9rc1")
+			out = append(out, "3", "3.10", "2.7", "3.9", "3.8", "3.9.0", "4", "3.*", "3.9.*", "3.9rc1", "v3.8", "V3.9", "v3.10")
 		case "python_full_version", "implementation_version":
-			out = append(out, "3", "3.9", "3.9.6", "3.9.7", "3.10.0", "3.9.6.0", "3.9.5", "3.9.*", "3.9.6rc1", "3.9.6+local")
+			out = append(out, "3", "3.9", "3.9.6", "3.9.7", "3.10.0", "3.9.6.0", "3.9.5", "3.9.*", "3.9.6rc1", "3.9.6+local", "v3.9.6", "V3.9.0")
 		case "platform_release":
 			out = append(out, "6", "6.9", "5.0", "7.0.0", "6.9.10", "6.10.0")
 		case "platform_version":
@@ -136,7 +136,13 @@ func Markers(env map[string]string, quick bool) []string {
 	for _, v := range MarkerVars {
 		ls := lits(v)
 		if quick && len(ls) > 7 {
-			ls = ls[:7]
+			keep := ls[:7]
+			for _, l := range ls[7:] {
+				if strings.HasPrefix(l, "v") || strings.HasPrefix(l, "V") {
+					keep = append(keep, l) // a v-prefixed literal is a PEP 440 version too
+				}
+			}
+			ls = keep
 		}
 		for _, op := range markerOps {
 			for _, l := range ls {
